@@ -1,11 +1,14 @@
 """Budget tiers shared by the property tables."""
+import os
+
+MEDIUM_FACTOR = int(os.environ.get("VERIF_MEDIUM_FACTOR", "4") or 4)
 
 
 def pick(tier, q, t):
     """number of generated cases per tier; `medium` (used when the anchored source changed or the tie is
-    broken, see check.py) is eight times the quick budget, capped by the thorough one"""
+    broken, see check.py) is MEDIUM_FACTOR (4) times the quick budget, capped by the thorough one"""
     if tier == "quick":
         return q
     if tier == "medium":
-        return max(q, min(t, 8 * q))
+        return max(q, min(t, MEDIUM_FACTOR * q))
     return t
